@@ -188,6 +188,62 @@ Definition filter_vulns (o : ropts) (all : list fvuln) : list fvuln := filter (m
 
 Definition to_vuln (v : fvuln) : vuln := {| v_id := f_id v; v_pkgs := f_pkgs v |}.
 
+(* ------------------------------------------------------------------ the depth and severity filters of MatchVuln *)
+(* matchDepth: MaxDepth <= 0 switches the filter off; otherwise some subgraph of the vulnerability
+   must have its root (node 0) at Distance <= MaxDepth. ComputeSubgraphs walks the parent edges
+   breadth first from the vulnerable node (self edges skipped) and gives every node the level at
+   which it is first reached; a root that is never reached has no entry in the node map, and the
+   zero value read back has Distance 0. Modelled as cumulative levels: up k = the nodes from which
+   the vulnerable node is reached in at most k steps. *)
+Definition edge := (N * N)%type.                                   (* (From, To) *)
+Definition parents (edges : list edge) (n : N) : list N :=
+  map fst (filter (fun e => N.eqb (snd e) n && negb (N.eqb (fst e) (snd e))) edges).
+Definition add_new (seen xs : list N) : list N :=
+  fold_left (fun acc x => if memN x acc then acc else acc ++ [x]) xs seen.
+Fixpoint up (k : nat) (edges : list edge) (n : N) : list N :=
+  match k with
+  | O => [n]
+  | S k' => let l := up k' edges n in add_new l (flat_map (parents edges) l)
+  end.
+Fixpoint first_level (fuel k : nat) (edges : list edge) (n t : N) : option nat :=
+  match fuel with
+  | O => None
+  | S f => if memN t (up k edges n) then Some k else first_level f (S k) edges n t
+  end.
+(* sg.Nodes[0].Distance *)
+Definition root_dist (numnodes : nat) (edges : list edge) (n : N) : Z :=
+  match first_level (S numnodes) 0 edges n 0 with Some d => Z.of_nat d | None => 0%Z end.
+Definition match_depth (maxd : Z) (numnodes : nat) (edges : list edge) (nodes : list N) : bool :=
+  (maxd <=? 0)%Z || existsb (fun n => (root_dist numnodes edges n <=? maxd)%Z) nodes.
+
+(* matchSeverity: the top-level severities if there are any, else the per-affected ones of the
+   affected entries that apply (chosen by IsAffected: recorded); the maximum of the scores that
+   parse; "round(10*max) >= round(10*min) or no score". A score is its tenths (round(10*score),
+   computed by the harness with math.Round), None = CalculateScore returned an error. *)
+Definition score := option Z.
+Definition max_score (l : list score) : option Z :=
+  fold_left (fun m s => match s, m with
+                        | Some x, Some y => Some (Z.max x y)
+                        | Some x, None => Some x
+                        | None, _ => m
+                        end) l None.
+Definition selected_scores (top aff : list score) : list score := match top with [] => aff | _ => top end.
+Definition match_severity (thr : Z) (top aff : list score) : bool :=
+  match max_score (selected_scores top aff) with None => true | Some s => (thr <=? s)%Z end.
+
+(* a found vulnerability with the ingredients instead of the answers *)
+Record gvuln := { g_id : N; g_aliases : list N; g_dev_only : bool; g_top : list score; g_aff : list score;
+                  g_nodes : list N; g_pkgs : list pkg }.
+Record thresholds := { th_sev : Z; th_depth : Z }.    (* round(10*MinSeverity), MaxDepth *)
+Definition to_fvuln (th : thresholds) (numnodes : nat) (edges : list edge) (g : gvuln) : fvuln :=
+  {| f_id := g_id g; f_aliases := g_aliases g; f_dev_only := g_dev_only g;
+     f_sev_ok := match_severity (th_sev th) (g_top g) (g_aff g);
+     f_depth_ok := match_depth (th_depth th) numnodes edges (g_nodes g);
+     f_pkgs := g_pkgs g |}.
+(* remediation.MatchVuln with nothing left to an oracle but CVSS parsing and IsAffected *)
+Definition match_vuln_full (o : ropts) (th : thresholds) (numnodes : nat) (edges : list edge) (g : gvuln) : bool :=
+  match_vuln o (to_fvuln th numnodes edges g).
+
 (* ------------------------------------------------------------------ choosePatches *)
 Definition mem_pkg (p : pkg) (l : list pkg) : bool := existsb (key_eqb p) l.
 Definition changes (p : patch) : list pkg := map (fun u => (u_name u, u_from u)) (p_updates p).
